@@ -112,7 +112,7 @@ static Trace run_ops(const std::vector<POp> &ops, const Bytes &tape, const Bytes
     tr.init_status = ascon_random_init(st);
     tr.init_calls = tape_sys_calls();
     uint64_t produced = 0;      // bytes produced since the last reseed (model)
-    auto healthy = [&](unsigned call) { return call >= status.size() || status[call] != 0; };
+    auto healthy = [&](unsigned call) { return call >= status.size() || status[call] == 1; };
     if (check_invariants) {
         if (tr.init_calls != 1) tr.error = "ascon_random_init made " + num(tr.init_calls) + " system-source calls";
         else if ((tr.init_status != 0) != healthy(0)) tr.error = "ascon_random_init returned " + std::to_string(tr.init_status) + " with a " + (healthy(0) ? "healthy" : "failed") + " source [key=init:status]";
@@ -206,7 +206,7 @@ static rc::Gen<KV> gen_prng() {
                                                    {3, rc::gen::element<uint64_t>(16383, 16384, 16385, 20000, 40000)}});
     auto op = rc::gen::map(rc::gen::tuple(rc::gen::weightedElement<int>({{6, O_FETCH}, {3, O_FEED}, {2, O_RESEED}, {2, O_SAVE}, {2, O_LOAD}, {2, O_RANDOM}, {1, O_REINIT}}), fsize, genBytes(100), rc::gen::weightedElement<int>({{5, 0}, {2, 1}, {2, 2}, {1, 3}})),
                            [](std::tuple<int, uint64_t, Bytes, int> t) { POp o; o.kind = std::get<0>(t); o.n = std::get<1>(t); o.data = std::get<2>(t); o.io = std::get<3>(t); return o; });
-    auto status = rc::gen::container<Bytes>(24, rc::gen::weightedElement<uint8_t>({{6, 1}, {1, 0}}));
+    auto status = rc::gen::container<Bytes>(24, rc::gen::weightedElement<uint8_t>({{6, 1}, {1, 0}, {1, 2}}));
     return rc::gen::map(rc::gen::tuple(rc::gen::container<std::vector<POp>>(op), genBytesN(24 * 32), status, genBytesN(32), rc::gen::arbitrary<uint32_t>()),
                         [](std::tuple<std::vector<POp>, Bytes, Bytes, Bytes, uint32_t> t) {
         KV c; c["ops"] = enc_ops(std::get<0>(t)); c["tape"] = hex(std::get<1>(t)); c["status"] = hex(std::get<2>(t)); c["store"] = hex(std::get<3>(t)); c["flip"] = num(std::get<4>(t)); return c; });
@@ -223,7 +223,7 @@ static bool classify_prng(const KV &c, std::vector<std::string> &tags) {
         tags.push_back(std::string("op=") + ONAME[o.kind]);
     }
     bool src_fail = false;
-    for (uint8_t s : status) if (!s) src_fail = true;
+    for (uint8_t s : status) if (s != 1) src_fail = true;
     if (total >= 16384) tags.push_back("crosses-16384");
     if (io_fail) tags.push_back("storage-failure");
     if (src_fail) tags.push_back("source-failure-on-tape");
@@ -244,8 +244,9 @@ static std::string check_prng(const KV &c) {
         if (t1.outputs[i] != t2.outputs[i]) return "step " + num(i + 1) + " " + ONAME[ops[i].kind] + ": output differs between two runs with the same system bytes and fed data [key=determinism]";
         if (t1.status[i] != t2.status[i]) return "step " + num(i + 1) + ": status differs between identical runs [key=determinism]";
     }
-    // 2. influence: flip one bit of a system-source byte of a healthy call, or of a fed byte
-    auto healthy = [&](unsigned call) { return call >= status.size() || status[call] != 0; };
+    // 2. influence: flip one bit of a system-source byte (whatever status the call reported: the bytes it
+    //    delivered were obtained from the source all the same), or of a fed byte
+    auto healthy = [&](unsigned call) { return call >= status.size() || status[call] == 1; };
     bool flip_feed = (flip & 1) != 0;
     int from = -2;                 // op index from which outputs must change (-1: from the first op)
     int only_random_op = -1;       // if the flipped call belonged to ascon_random(), only that output changes
@@ -261,10 +262,11 @@ static std::string check_prng(const KV &c) {
         unsigned ncalls = 0;
         for (auto &pr : t1.calls) ncalls = std::max(ncalls, pr.second);
         ncalls = std::max(ncalls, t1.init_calls);
-        std::vector<unsigned> good;
-        for (unsigned j = 0; j < ncalls && (j + 1) * 32 <= tape.size(); ++j) if (healthy(j)) good.push_back(j);
+        std::vector<unsigned> good, degraded;   // calls that delivered tape bytes; those of them that reported failure
+        for (unsigned j = 0; j < ncalls && (j + 1) * 32 <= tape.size(); ++j) if (j >= status.size() || status[j] != 0) { good.push_back(j); if (!healthy(j)) degraded.push_back(j); }
         if (good.empty()) return "";
         unsigned j = good[(flip >> 1) % good.size()];
+        if ((flip & 4) && !degraded.empty()) { j = degraded[(flip >> 3) % degraded.size()]; runner().tag("influence-of-bytes-from-a-failing-call"); }
         uint64_t bit = (flip >> 8) % 256;
         tape3[j * 32 + bit / 8] ^= (uint8_t)(1u << (bit % 8));
         if (j < t1.init_calls) from = 0;
